@@ -414,6 +414,25 @@ pub fn cases_c15(cfg: &Cfg) -> Vec<Case> {
             }
         }
     }
+    // strided arrangements of long inputs: every stride 2..=64 and a few larger ones (whatever subsamples the input
+    // with a fixed stride, or works on fixed-size chunks, sees a distribution that is far from the real one)
+    if cfg.scale == Scale::Full && cfg.rep < 3 {
+        let strides: Vec<usize> = (2..=64).chain([96, 100, 127, 128, 255, 256, 1000, 1024, 4096, 65536]).collect();
+        for (j, p) in strides.into_iter().enumerate() {
+            // every stride on a quad Huffman tree (the four aliases in turn) and on the binary one
+            for alias in [aliases[j % 4], "HWT"] {
+                let (alpha, dist, tname) = profiles[(j * 5 + 2 + (alias == "HWT") as usize) % profiles.len()].clone();
+                let n = if cfg.tier == Tier::Quick { 1_200_011 + j * 3 } else { 2_500_003 + j * 7 };
+                let spec = SeqSpec { n, alpha, dist, layout: Layout::Strided(p), seed: rng.u64() };
+                let ty = format!("{}<{}>", alias, tname);
+                let class = format!("{}|{}|stride{}", ty, spec.class(), p);
+                let desc = J::obj().set("spec", spec.to_json());
+                out.push(Case::new(ty, class, desc, n as u64 * 6 + 500, move |rep: &mut Rep| {
+                    with_tree!(alias, tname, run_c15, rep, &spec);
+                }));
+            }
+        }
+    }
     for (si, (w, tname)) in singles.into_iter().enumerate() {
         for (ai, alias) in aliases.iter().enumerate() {
             if cfg.scale != Scale::Full && (si + ai) % 2 != 0 {
